@@ -207,3 +207,38 @@ for _pid, _what, _nt, _claim, _tech in [
         'note': 'trusted: the reference model and generators (domops.rs); argument space restricted to documented preconditions',
         'technique': _tech,
     }
+
+
+def _c18(m, tier, seed, rundir, extra):
+    scopes = [('3', '1', '2')] if tier == 'quick' else [('3', '1', '2'), ('3', '2', '2'), ('2', '1', '3'), ('4', '1', '2')]
+    for k, (ln, contents, threads) in enumerate(scopes):
+        res = core.run_sharded('sstr', ['--mode', 'explore', '--len', ln, '--contents', contents, '--threads', threads,
+                                        '--max-schedules', 400000], SH, os.path.join(rundir, f'scope{k}'), timeout=7200)
+        m.add_results(res, f'sstr explore len={ln} contents={contents} threads={threads}')
+        m.extra.setdefault('exhaustive_scopes', []).append({'threads': int(threads), 'ops_per_thread_before_closing': int(ln), 'contents': int(contents)})
+    for n in m.notes:
+        if n.startswith('INCONCLUSIVE'):
+            m.inconclusive.append(n)
+    ops = 2000000 if tier == 'quick' else 40000000
+    res = core.run_sharded('sstr', ['--mode', 'stress', '--ops', ops, '--threads', 16, '--seed', seed], 1 if tier == 'quick' else 4, os.path.join(rundir, 'stress'))
+    m.add_results(res, 'sstr stress')
+
+
+PLANS['C18'] = {
+    'level': 'exploration',
+    'rule': ('real OS threads run closed programs of new/clone/drop on SharedStrings; a controller parks every thread at each yield point (clone/drop entry at the client boundary, '
+             'and the two cfg hooks: before the table lock in new(), and between the last release and the table clean-up in Drop) and releases one thread at a time; '
+             'EVERY schedule of every program set in the scopes under exhaustive_scopes is executed (DFS over release choices, replayable from the choice string); '
+             'oracle at every quiescent point: handle bytes, ==/Hash, all live handles of equal content share one buffer address, no deadlock, table back to its initial size after all drops; '
+             'plus a 16-thread uncontrolled stress run with jitter injected at the hooks and the same oracle at barriers; '
+             'non-trivial = schedule with >=2 scheduling decisions; distinct = (program set, choice string)'),
+    'floor': {'quick': 20000, 'thorough': 300000},
+    'exhaustive': {},
+    'assumptions': ['interleavings finer than the hook granularity (inside Arc / Mutex) are not enumerated; they are left to the stress run and the Miri leg',
+                    'hooks sit outside the table lock, so no interleaving is manufactured that the program cannot have'],
+    'run': _c18,
+    'claim': ('held on every schedule (at critical-section / clean-up-window granularity) of all closed 2-3 thread programs in the listed scopes and on a multi-million-operation stress run: '
+              'bytes, equality, single shared buffer per content, termination, empty table at the end'),
+    'note': 'trusted: the schedule controller (harness/src/sstr.rs); contents are unique per schedule so runs do not interfere through the process-global table',
+    'technique': 'controlled-schedule runtime monitoring of real threads (exhaustive at hook granularity) + stress with injected delays',
+}
